@@ -1805,4 +1805,255 @@ theorem load_print (s : LoadShape) (q r : List Token) (hq : q.map (·.tk) = prin
     simp only [load, List.cons_append, List.nil_append, hbt, ha]
     exact ⟨_, rfl, rfl⟩
 
+theorem printContents_nil_or_starts (l : List ContentShape) (pre : List Token) (hp : pre.map (·.tk) = printContents l) :
+    pre = [] ∨ StartsContent pre := by
+  cases l with
+  | nil => simp [printContents] at hp; exact Or.inl hp
+  | cons a as =>
+    simp only [printContents] at hp
+    obtain ⟨q, pre', rfl, hq, _⟩ := List.map_eq_append_iff.mp hp
+    exact Or.inr (printContent_head a q pre' hq)
+
+/-- the stop condition of the `load*` loop of `parseFile` -/
+def stopLoads (t : List Token) : Bool := !(peekKw "@import" t || peekKw "@extern" t)
+
+theorem parseFile_eq (ts : List Token) : parseFile ts =
+    match many (8 * ts.length + 16) stopLoads load (8 * ts.length + 16) ts with
+    | none => none
+    | some (ls, ts1) =>
+      match many (8 * ts.length + 16) (fun t => t.isEmpty) (content (8 * ts.length + 16)) (8 * ts.length + 16) ts1 with
+      | none => none
+      | some (cs, ts2) => if ts2.isEmpty then some { loads := ls, contents := cs } else none := by
+  unfold parseFile
+  simp only [Option.bind_eq_bind]
+  change (many (8 * ts.length + 16) stopLoads load (8 * ts.length + 16) ts).bind _ = _
+  cases many (8 * ts.length + 16) stopLoads load (8 * ts.length + 16) ts with
+  | none => rfl
+  | some x =>
+    obtain ⟨ls, ts1⟩ := x
+    simp only [Option.bind_some]
+    cases many (8 * ts.length + 16) (fun t => t.isEmpty) (content (8 * ts.length + 16)) (8 * ts.length + 16) ts1 with
+    | none => rfl
+    | some y => rfl
+
+theorem file_print (f : FileShape) (toks : List Token) (h : toks.map (·.tk) = printFile f) :
+    ∃ file, parseFile toks = some file ∧ file.shape? = some f.erase := by
+  obtain ⟨lpre, cpre, rfl, hl, hc⟩ := List.map_eq_append_iff.mp h
+  have hlen := length_le_of_flatMap printLoad (fun s => by simp [printLoad]) f.loads lpre hl
+  have hstop : stopLoads cpre = true := by
+    rcases printContents_nil_or_starts _ cpre hc with rfl | hs
+    · rfl
+    · simp [stopLoads, hs.peekKw_false "@import" (by decide), hs.peekKw_false "@extern" (by decide)]
+  obtain ⟨-, ls, hls, hlss⟩ := many_print (8 * (lpre ++ cpre).length + 16) stopLoads load printLoad
+    (fun a => some a.shape) id (fun _ => True) f.loads
+    (by
+      intro s _ q r hq _
+      obtain ⟨a, ha, has⟩ := load_print s q r hq
+      refine ⟨?_, trivial, a, ha, by simp [has]⟩
+      simp only [printLoad] at hq
+      obtain ⟨x, b1, rfl, hx, _⟩ := List.map_eq_cons_iff.mp hq
+      cases hi : s.isImport <;> simp [hi] at hx <;> simp [stopLoads, peekKw, hx])
+    lpre cpre (8 * (lpre ++ cpre).length + 16) hl hstop trivial (by simp only [List.length_append]; omega)
+  obtain ⟨cs, hcs, hcss⟩ := contents_print f.contents cpre [] (fun t => t.isEmpty) (8 * (lpre ++ cpre).length + 16)
+    (8 * (lpre ++ cpre).length + 16) (8 * (lpre ++ cpre).length + 16) hc rfl
+    (by rintro ts ⟨x, xs, rfl, _⟩; rfl) rfl
+    (by simp only [List.length_append]; omega) (by simp only [List.length_append]; omega)
+  rw [List.append_nil] at hcs
+  rw [parseFile_eq, hls]
+  simp only [hcs, List.isEmpty_nil, if_true]
+  refine ⟨_, rfl, ?_⟩
+  rw [mapOpt_total] at hlss
+  simp at hlss
+  simp [File.shape?, hcss, FileShape.erase, hlss]
+
+/-! ## parse, then print (soundness) for enums and flags -/
+
+theorem comments_sound (ts : List Token) :
+    ∃ cs, ts = cs ++ (comments ts).2 ∧ cs.map (·.tk) = printComments (comments ts).1 := by
+  induction ts with
+  | nil => exact ⟨[], by simp [comments], by simp [comments, printComments]⟩
+  | cons t ts ih =>
+    obtain ⟨cs, h1, h2⟩ := ih
+    cases ht : t.tk with
+    | comment s =>
+      refine ⟨t :: cs, ?_, ?_⟩
+      · simp only [comments, ht, List.cons_append]; rw [← h1]
+      · simp only [comments, ht, List.map_cons, printComments] at h2 ⊢; rw [h2]
+    | kw s => exact ⟨[], by simp [comments, ht], by simp [comments, ht, printComments]⟩
+    | filepath s => exact ⟨[], by simp [comments, ht], by simp [comments, ht, printComments]⟩
+    | target s => exact ⟨[], by simp [comments, ht], by simp [comments, ht, printComments]⟩
+    | id s => exact ⟨[], by simp [comments, ht], by simp [comments, ht, printComments]⟩
+    | nsid s => exact ⟨[], by simp [comments, ht], by simp [comments, ht, printComments]⟩
+
+theorem ident_inv {ts r : List Token} {n : String} (h : ident ts = some (n, r)) :
+    ∃ t, ts = t :: r ∧ t.tk = .id n := by
+  cases ts with
+  | nil => simp [ident] at h
+  | cons t ts =>
+    simp only [ident] at h
+    split at h
+    · next s hs => simp at h; obtain ⟨rfl, rfl⟩ := h; exact ⟨t, rfl, hs⟩
+    · simp at h
+
+theorem item_sound (ts0 : List Token) (a : Item) (r : List Token) (h : item ts0 = some (a, r)) :
+    ∃ q, ts0 = q ++ r ∧ q.map (·.tk) = printItem a.shape := by
+  obtain ⟨cs, h1, h2⟩ := comments_sound ts0
+  unfold item at h
+  generalize comments ts0 = x at h h1 h2
+  obtain ⟨c, ts⟩ := x
+  simp only [Option.bind_eq_bind, Option.pure_def] at h h1 h2
+  cases hi : ident ts with
+  | none => simp [hi] at h
+  | some y =>
+    obtain ⟨n, ts1⟩ := y
+    obtain ⟨nt, rfl, hn⟩ := ident_inv hi
+    simp only [hi, Option.bind_some] at h
+    cases hk : kw? ";" ts1 with
+    | none => simp [hk] at h
+    | some ts2 =>
+      obtain ⟨semi, rfl, hsemi⟩ := kw?_inv hk
+      simp only [hk, Option.bind_some, Option.some.injEq, Prod.mk.injEq] at h
+      obtain ⟨rfl, rfl⟩ := h
+      exact ⟨cs ++ [nt, semi], by rw [h1]; simp, by simp [printItem, Item.shape, h2, hn, hsemi]⟩
+
+theorem flagItem_sound (ts0 : List Token) (a : FlagItem) (r : List Token) (h : flagItem ts0 = some (a, r)) :
+    ∃ q, ts0 = q ++ r ∧ q.map (·.tk) = printFlagItem a.shape := by
+  obtain ⟨cs, h1, h2⟩ := comments_sound ts0
+  unfold flagItem at h
+  generalize comments ts0 = x at h h1 h2
+  obtain ⟨c, ts⟩ := x
+  simp only [Option.bind_eq_bind, Option.pure_def] at h h1 h2
+  cases hi : ident ts with
+  | none => simp [hi] at h
+  | some y =>
+    obtain ⟨n, ts1⟩ := y
+    obtain ⟨nt, rfl, hn⟩ := ident_inv hi
+    simp only [hi, Option.bind_some] at h
+    by_cases hm : peekKw "=" ts1 = true
+    · obtain ⟨eq, he, heq⟩ := peekKw_inv hm
+      simp only [hm, if_true] at h
+      cases hi2 : ident ts1.tail with
+      | none => simp [hi2] at h
+      | some z =>
+        obtain ⟨m, ts2⟩ := z
+        obtain ⟨mt, hmt, hmk⟩ := ident_inv hi2
+        simp only [hi2, Option.bind_some] at h
+        cases hk : kw? ";" ts2 with
+        | none => simp [hk] at h
+        | some ts3 =>
+          obtain ⟨semi, rfl, hsemi⟩ := kw?_inv hk
+          simp only [hk, Option.bind_some, Option.some.injEq, Prod.mk.injEq] at h
+          obtain ⟨rfl, rfl⟩ := h
+          refine ⟨cs ++ [nt, eq, mt, semi], ?_, ?_⟩
+          · rw [h1, he, hmt]; simp
+          · simp [printFlagItem, FlagItem.shape, printModifier, h2, hn, hsemi, heq, hmk]
+    · simp only [hm, Bool.false_eq_true, if_false, Option.bind_some] at h
+      cases hk : kw? ";" ts1 with
+      | none => simp [hk] at h
+      | some ts3 =>
+        obtain ⟨semi, rfl, hsemi⟩ := kw?_inv hk
+        simp only [hk, Option.bind_some, Option.some.injEq, Prod.mk.injEq] at h
+        obtain ⟨rfl, rfl⟩ := h
+        exact ⟨cs ++ [nt, semi], by rw [h1]; simp, by simp [printFlagItem, FlagItem.shape, printModifier, h2, hn, hsemi]⟩
+
+/-- the branches of `typeDecl` after `enum` and `flags`: whatever they return is a record,
+    interface, error domain or function declaration -/
+theorem typeDecl_rest_not (d : Decl)
+    (hrec : ∀ n c fl flp fs dv p, Decl.record n c fl flp fs dv p ≠ d)
+    (hint : ∀ n c mn fl flp ms ps p, Decl.interface n c mn fl flp ms ps p ≠ d)
+    (herr : ∀ n c cs p, Decl.error n c cs p ≠ d)
+    (hfun : ∀ n c f p, Decl.function n c f p ≠ d)
+    (fuel : Nat) (c' : List String) (ts0 ts2 : List Token) (n' : String) (rest : List Token)
+    (h : (if peekKw "record" ts2 then do
+        let (fl, ts1) := targets ts2.tail
+        let flp := spanPos ts2.tail ts1
+        let ts ← kw? "{" ts1
+        let (fs, ts) ← many fuel (peekKw "}") (field fuel) fuel ts
+        let ts ← kw? "}" ts
+        if peekKw "deriving" ts then do
+          let ts ← kw? "(" ts.tail
+          let (ds, ts) ← if peekKw ")" ts then pure ([], ts) else derivingList fuel ts
+          let ts ← kw? ")" ts
+          pure (Decl.record n' c' fl flp fs (some ds) (spanPos ts0 ts), ts)
+        else pure (Decl.record n' c' fl flp fs none (spanPos ts0 ts), ts)
+      else if peekKw "main" ts2 || peekKw "interface" ts2 then do
+        let (mn, ts) := if peekKw "main" ts2 then (true, ts2.tail) else (false, ts2)
+        let ts ← kw? "interface" ts
+        let (fl, ts1) := targets ts
+        let flp := spanPos ts ts1
+        let ts ← kw? "{" ts1
+        let (ms, ts) ← many fuel (peekKw "}") (member fuel) fuel ts
+        let ts ← kw? "}" ts
+        let methods := ms.filterMap (fun | .m x => some x | _ => none)
+        let props := ms.filterMap (fun | .p x => some x | _ => none)
+        pure (Decl.interface n' c' mn fl flp methods props (spanPos ts0 ts), ts)
+      else if peekKw "error" ts2 then do
+        let ts ← kw? "{" ts2.tail
+        let (cs, ts) ← many fuel (peekKw "}") (errCode fuel) fuel ts
+        let ts ← kw? "}" ts
+        pure (Decl.error n' c' cs (spanPos ts0 ts), ts)
+      else
+        firstThat (functionL fuel ts2) fun f ts => do
+          let ts ← kw? ";" ts
+          pure (Decl.function n' c' f (spanPos ts0 ts), ts)) = some (d, rest)) : False := by
+  split at h
+  · simp [Option.bind_eq_some_iff] at h
+    obtain ⟨a, _, a1, b, _, a2, _, h⟩ := h
+    split at h
+    · simp only [Option.bind_eq_some_iff] at h
+      obtain ⟨ts, _, h⟩ := h
+      split at h <;> simp [Option.bind_eq_some_iff, hrec] at h
+    · simp [hrec] at h
+  split at h
+  · simp [Option.bind_eq_some_iff, hint] at h
+  split at h
+  · simp [Option.bind_eq_some_iff, herr] at h
+  · simp [firstThat, List.findSome?_eq_some_iff, Option.bind_eq_some_iff, hfun] at h
+
+theorem typeDecl_enum_inv (fuel : Nat) (c' : List String) (ts0 ts : List Token) (n : String) (c : List String)
+    (is : List Item) (p : Pos) (rest : List Token)
+    (h : typeDecl fuel c' ts0 ts = some (.enum n c is p, rest)) :
+    c = c' ∧ ∃ nt eq k lb body rb, ts = nt :: eq :: k :: lb :: body ∧ nt.tk = .id n ∧ eq.tk = .kw "=" ∧
+      k.tk = .kw "enum" ∧ lb.tk = .kw "{" ∧ rb.tk = .kw "}" ∧
+      many fuel (peekKw "}") item fuel body = some (is, rb :: rest) := by
+  unfold typeDecl at h
+  simp only [Option.bind_eq_bind] at h
+  cases hi : ident ts with
+  | none => simp [hi] at h
+  | some y =>
+    obtain ⟨n', ts1⟩ := y
+    obtain ⟨nt, rfl, hn⟩ := ident_inv hi
+    simp only [hi, Option.bind_some] at h
+    cases hk : kw? "=" ts1 with
+    | none => simp [hk] at h
+    | some ts2 =>
+      obtain ⟨eq, rfl, heq⟩ := kw?_inv hk
+      simp only [hk, Option.bind_some] at h
+      by_cases he : peekKw "enum" ts2 = true
+      · obtain ⟨k, hk2, hkk⟩ := peekKw_inv he
+        simp only [he, if_true] at h
+        cases hl : kw? "{" ts2.tail with
+        | none => simp [hl] at h
+        | some ts3 =>
+          obtain ⟨lb, hlb, hlbk⟩ := kw?_inv hl
+          simp only [hl, Option.bind_some] at h
+          cases hm : many fuel (peekKw "}") item fuel ts3 with
+          | none => simp [hm] at h
+          | some z =>
+            obtain ⟨is', ts4⟩ := z
+            simp only [hm, Option.bind_some] at h
+            cases hr : kw? "}" ts4 with
+            | none => simp [hr] at h
+            | some ts5 =>
+              obtain ⟨rb, rfl, hrb⟩ := kw?_inv hr
+              simp only [hr, Option.bind_some, Option.pure_def, Option.some.injEq, Prod.mk.injEq, Decl.enum.injEq] at h
+              obtain ⟨⟨rfl, rfl, rfl, -⟩, rfl⟩ := h
+              exact ⟨rfl, nt, eq, k, lb, ts3, rb, by rw [hk2, hlb], hn, heq, hkk, hlbk, hrb, hm⟩
+      · exfalso
+        simp only [he, Bool.false_eq_true, if_false] at h
+        split at h
+        · simp [Option.bind_eq_some_iff] at h
+        · exact typeDecl_rest_not _ (by intros; simp) (by intros; simp) (by intros; simp) (by intros; simp)
+            _ _ _ _ _ _ h
+
 end Pydjinni.Front
